@@ -379,7 +379,7 @@ func init() {
 		}
 		// first of all, the whole scope API at once in a child process: an unsynchronised map kills the
 		// process it happens in, and the streams below run inside the harness itself
-		c09RaceStorm(ctx, ctx.N(5000, 60000))
+		c09RaceStorm(ctx, ctx.N(4000, 30000))
 		if len(ctx.Res.Failures) > 0 {
 			return
 		}
